@@ -276,6 +276,9 @@ fn gen_scalar_value(rng: &mut Rng, k: &Knobs, m: KeyMod) -> Yaml {
         KeyMod::Str => match rng.below(5) {
             0 => Yaml::Number(gen_int(rng, k).into()),
             1 if k.has(F_BOOLNULL) => Yaml::Bool(rng.chance(1, 2)),
+            // patterns over the printed form of a number: what tells apart values that are equal
+            // as numbers (0.0 and -0.0, 1 and 1.0)
+            2 => ystr(*rng.pick(&["0", "-0", "-*", "0*", "*.5", "1", "-1", "*0", "?^-", "?^\\d+$", "inf", "NaN", "1e300"])),
             _ => ystr(&gen_pattern(rng, k)),
         },
         _ => {
